@@ -606,4 +606,10 @@ def glass(ctx):
     return res
 
 
-RULES = [dispatch, keys_and_wiring, vocab, parm_offset, mode_raises, glass]
+def c01_wiring(ctx):
+    """shared with C01: what the converter hands to add_surface reaches the
+    geometry (surface-type table, keyword filtering, constructor order)"""
+    from .C01 import arg_wiring_rule as _r
+    return _r(ctx)
+
+RULES = [c01_wiring, dispatch, keys_and_wiring, vocab, parm_offset, mode_raises, glass]
